@@ -154,7 +154,14 @@ class wind(PseudoNetCDFFile):
         self.rffile.next()
         nlayers = 0
         while not self.rffile.record_size == self.time_hdr_size:
-            self.rffile.next()
+            if not self.rffile.next():
+                # the file ends with its first (only) time step: there is
+                # no second time header to take the increment from
+                self.nlayers = nlayers // 2
+                self.end_time, self.end_date = self.start_time, self.start_date
+                self.time_step = 100.
+                self.time_step_count = 1
+                return
             nlayers += 1
 
         self.nlayers = (nlayers - 1) // 2
